@@ -124,7 +124,10 @@ type Case struct {
 	Flags Flags             `json:"flags"`
 	Deps  map[string]string `json:"deps"` // svc:ns/name -> state, secret:ns/name -> state, policy:ns/name -> state
 	Res   []Res             `json:"res"`
-	Obs   Obs               `json:"obs"`
+	// class "names": one identifier scheme applied to components
+	Scheme string   `json:"scheme,omitempty"`
+	Args   []string `json:"args,omitempty"`
+	Obs    Obs      `json:"obs"`
 }
 
 // ---------------------------------------------------------------- world
@@ -869,6 +872,31 @@ func simpleIngress(ns, name, host string, paths []string, svc string, ann map[st
 	return ing
 }
 
+// forceReady makes the Service ns/name exist with one ready endpoint whatever genDeps drew.
+func forceReady(w *world, ns, name string) {
+	w.deps["svc:"+ns+"/"+name] = "ready"
+	var svcs []*api_v1.Service
+	for _, s := range w.svcs {
+		if !(s.Namespace == ns && s.Name == name) {
+			svcs = append(svcs, s)
+		}
+	}
+	var sl []*discovery_v1.EndpointSlice
+	for _, s := range w.slices {
+		if !(s.Namespace == ns && s.Labels["kubernetes.io/service-name"] == name) {
+			sl = append(sl, s)
+		}
+	}
+	svcs = append(svcs, &api_v1.Service{ObjectMeta: meta_v1.ObjectMeta{Name: name, Namespace: ns},
+		Spec: api_v1.ServiceSpec{ClusterIP: "10.0.9.9", Ports: []api_v1.ServicePort{
+			{Name: "http", Port: 80, TargetPort: intstr.FromInt(8080)}, {Name: "alt", Port: 8080, TargetPort: intstr.FromInt(8080)}}}})
+	sl = append(sl, &discovery_v1.EndpointSlice{
+		ObjectMeta: meta_v1.ObjectMeta{Name: name + "-w", Namespace: ns, Labels: map[string]string{"kubernetes.io/service-name": name}},
+		Ports:      []discovery_v1.EndpointPort{{Port: ptr(int32(8080))}},
+		Endpoints:  []discovery_v1.Endpoint{{Addresses: []string{"10.9.9.9"}, Conditions: discovery_v1.EndpointConditions{Ready: ptr(true)}}}})
+	w.svcs, w.slices = svcs, sl
+}
+
 func genWitness(r *vh.Rng, w *world, class string) {
 	w.flags.MainConf, w.flags.Churn = false, false
 	switch class {
@@ -885,7 +913,7 @@ func genWitness(r *vh.Rng, w *world, class string) {
 			Spec: conf_v1.TransportServerSpec{IngressClass: "nginx", Listener: conf_v1.TransportServerListener{Name: "tcp-1", Protocol: "TCP"},
 				Upstreams: []conf_v1.TransportServerUpstream{{Name: "u", Service: "svc", Port: 8080, MaxConns: ptr(-1 - r.Intn(3))}},
 				Action:    &conf_v1.TransportServerAction{Pass: "u"}}}
-		w.deps["svc:a/svc"] = "forced"
+		forceReady(w, "a", "svc")
 		w.objs = append(w.objs, ts)
 		w.res = append(w.res, Res{Kind: "ts", NS: "a", Name: "web", Upstreams: []string{"u"}, Listener: "tcp-1", Note: fmt.Sprintf("maxConns=%d", *ts.Spec.Upstreams[0].MaxConns)})
 	case "w-vsr-twice": // F12
@@ -910,17 +938,29 @@ func genWitness(r *vh.Rng, w *world, class string) {
 		w.objs = append(w.objs, mk("a-b", "c", "x.example.com"), mk("a", "b-c", "y.example.com"))
 		w.res = append(w.res, Res{Kind: "vs", NS: "a-b", Name: "c", Hosts: []string{"x.example.com"}, Paths: []string{"/"}, Note: "splits"},
 			Res{Kind: "vs", NS: "a", Name: "b-c", Hosts: []string{"y.example.com"}, Paths: []string{"/"}, Note: "splits"})
+	case "w-minion-login-location": // @login_url_<ns>-<name> of two minions inside one master server
+		w.flags.Plus = true
+		master := simpleIngress("a", "web", "x.example.com", nil, "svc", map[string]string{"nginx.org/mergeable-ingress-type": "master"})
+		master.Spec.Rules[0].HTTP = nil
+		mk := func(ns, name, path string) *networking.Ingress {
+			return simpleIngress(ns, name, "x.example.com", []string{path}, "svc", map[string]string{"nginx.org/mergeable-ingress-type": "minion",
+				"nginx.com/jwt-key": "jwk", "nginx.com/jwt-realm": "r", "nginx.com/jwt-login-url": "https://login.example.com"})
+		}
+		w.objs = append(w.objs, master, mk("a-b", "c", "/a"), mk("a", "b-c", "/b"))
+		w.res = append(w.res, Res{Kind: "master", NS: "a", Name: "web", Hosts: []string{"x.example.com"}},
+			Res{Kind: "minion", NS: "a-b", Name: "c", Hosts: []string{"x.example.com"}, Paths: []string{"/a"}, Note: "jwt-login-url"},
+			Res{Kind: "minion", NS: "a", Name: "b-c", Hosts: []string{"x.example.com"}, Paths: []string{"/b"}, Note: "jwt-login-url"})
 	case "w-rewrite-backslash": // F27
 		ann := map[string]string{"nginx.org/rewrites": "serviceName=svc rewrite=/x\\"}
 		w.objs = append(w.objs, simpleIngress("a", "web", "x.example.com", []string{"/"}, "svc", ann))
 		w.res = append(w.res, Res{Kind: "ing", NS: "a", Name: "web", Hosts: []string{"x.example.com"}, Paths: []string{"/"}, Ann: ann})
 	case "w-sticky-brace": // F28
 		w.flags.Plus = true
-		ann := map[string]string{"nginx.com/sticky-cookie-services": "serviceName=svc srv_id expires=1h path=/}"}
+		ann := map[string]string{"nginx.com/sticky-cookie-services": "serviceName=svc srv_id expires=1h path=/{"}
 		w.objs = append(w.objs, simpleIngress("a", "web", "x.example.com", []string{"/"}, "svc", ann))
 		w.res = append(w.res, Res{Kind: "ing", NS: "a", Name: "web", Hosts: []string{"x.example.com"}, Paths: []string{"/"}, Ann: ann})
 	case "w-ts-hash-key": // F29
-		lb := vh.Pick(r, []string{"hash x;least_conn", "hash x}"})
+		lb := "hash x{"
 		ts := &conf_v1.TransportServer{ObjectMeta: meta_v1.ObjectMeta{Name: "web", Namespace: "a"},
 			Spec: conf_v1.TransportServerSpec{IngressClass: "nginx", Listener: conf_v1.TransportServerListener{Name: "tcp-1", Protocol: "TCP"},
 				Upstreams: []conf_v1.TransportServerUpstream{{Name: "u", Service: "svc", Port: 8080, LoadBalancingMethod: lb}},
@@ -1093,9 +1133,90 @@ func firstLine(s string) string {
 }
 
 var witnessClasses = []string{"w-ingress-upstream-name", "w-ingress-path-brace", "w-ts-maxconns", "w-vsr-twice", "w-variable-namer",
-	"w-rewrite-backslash", "w-sticky-brace", "w-ts-hash-key", "w-limit-req-key"}
+	"w-rewrite-backslash", "w-sticky-brace", "w-ts-hash-key", "w-limit-req-key", "w-minion-login-location"}
+
+// ---------------------------------------------------------------- identifier schemes (model correspondence)
+
+func randComp(r *vh.Rng) string {
+	switch r.Intn(4) {
+	case 0:
+		return vh.Pick(r, nsPool)
+	case 1:
+		return vh.Pick(r, namePool)
+	case 2:
+		return vh.Pick(r, []string{"a_b", "A-b", "x--y", "-", "_", "a.b-c", "", "vsr", "vs", "0", "a-", "-a"})
+	}
+	n := 1 + r.Intn(6)
+	b := make([]byte, n)
+	for i := range b {
+		b[i] = "abcxyz019-.-"[r.Intn(12)]
+	}
+	return string(b)
+}
+
+var schemes = []string{"vs_upstream", "vsr_upstream", "ts_upstream", "ingress_upstream", "keyval_zone", "matches_map", "login_location"}
+
+func runNames(seed uint64, id int) (c Case) {
+	r := vh.NewRng(seed).Fork(uint64(id))
+	c = Case{ID: id, Class: "names", Seed: seed, Scheme: vh.Pick(r, schemes)}
+	defer func() {
+		if p := recover(); p != nil {
+			c.Obs.Panic = fmt.Sprint(p)
+		}
+	}()
+	arg := func(n int) {
+		for i := 0; i < n; i++ {
+			c.Args = append(c.Args, randComp(r))
+		}
+	}
+	vsOf := func(ns, name string) *conf_v1.VirtualServer {
+		return &conf_v1.VirtualServer{ObjectMeta: meta_v1.ObjectMeta{Namespace: ns, Name: name}}
+	}
+	var real string
+	switch c.Scheme {
+	case "vs_upstream":
+		arg(3)
+		real = configs.NewUpstreamNamerForVirtualServer(vsOf(c.Args[0], c.Args[1])).GetNameForUpstream(c.Args[2])
+	case "vsr_upstream":
+		arg(5)
+		vsr := &conf_v1.VirtualServerRoute{ObjectMeta: meta_v1.ObjectMeta{Namespace: c.Args[2], Name: c.Args[3]}}
+		real = configs.NewUpstreamNamerForVirtualServerRoute(vsOf(c.Args[0], c.Args[1]), vsr).GetNameForUpstream(c.Args[4])
+	case "ts_upstream":
+		arg(3)
+		real = configs.VerifC07TSUpstreamName(c.Args[0], c.Args[1], c.Args[2])
+	case "ingress_upstream":
+		arg(4)
+		port := int32(r.Intn(65536))
+		pname := ""
+		if r.Chance(1, 3) {
+			pname = vh.Pick(r, []string{"http", "a-b", "web"})
+			c.Args = append(c.Args, pname)
+		} else {
+			c.Args = append(c.Args, fmt.Sprint(port))
+		}
+		real = configs.VerifC07IngressUpstreamName(c.Args[0], c.Args[1], c.Args[2], c.Args[3], port, pname)
+	case "keyval_zone":
+		arg(2)
+		i := r.Intn(1200)
+		c.Args = append(c.Args, fmt.Sprint(i))
+		real = configs.NewVSVariableNamer(vsOf(c.Args[0], c.Args[1])).GetNameOfKeyvalZoneForSplitClientIndex(i)
+	case "matches_map":
+		arg(2)
+		i := r.Intn(1200)
+		c.Args = append(c.Args, fmt.Sprint(i))
+		real = configs.NewVSVariableNamer(vsOf(c.Args[0], c.Args[1])).GetNameForVariableForMatchesRouteMainMap(i)
+	case "login_location":
+		arg(2)
+		real = configs.VerifC07LoginLocation(c.Args[0], c.Args[1])
+	}
+	c.Obs.Files = []FileObs{{Name: "name", Bytes: vh.Bytes(real)}}
+	return c
+}
 
 func runCase(seed uint64, id int, class string) Case {
+	if class == "names" {
+		return runNames(seed, id)
+	}
 	r := vh.NewRng(seed).Fork(uint64(id))
 	w := genWorld(r, class)
 	c := Case{ID: id, Class: class, Seed: seed, Flags: w.flags, Deps: w.deps, Res: w.res}
@@ -1129,6 +1250,10 @@ func main() {
 	}
 	for i := 0; i < a.N; i++ {
 		out.Emit(runCase(a.Seed, id, "set"))
+		id++
+	}
+	for i := 0; i < a.N; i++ {
+		out.Emit(runCase(a.Seed, id, "names"))
 		id++
 	}
 }
